@@ -492,4 +492,4 @@ func mkRoot(c runCfg) (string, error) {
 	}
 	return root, os.MkdirAll(root, 0o755)
 }
-func rmRoot(root string)              { os.RemoveAll(root) }
+func rmRoot(root string) { os.RemoveAll(root) }
